@@ -200,6 +200,9 @@ def core_from_ir(circ):
 
     def stmt(s):
         if isinstance(s, GateStatement):
+            # a call is bound to a macro only if the circuit it belongs to has a macro of that name
+            if isinstance(s.gate_def, Macro) and s.name not in circ.macros:
+                raise OracleError("statement %s is bound to a macro, but the circuit has no macro %s" % (s.name, s.name))
             return ("gate", s.name, tuple(arg(a, names) for a in s.parameters.values()))
         if isinstance(s, LoopStatement):
             return ("loop", val(s.iterations), stmt(s.statements))
